@@ -292,7 +292,7 @@ def classify(status, detail, stats):
         if int(stats.get("resover", "0")) > 0:
             return ("resover", "Ok result holding a binary overwritten by a propagated error without release")
         return None
-    if status == "compile":
+    if status in ("compile", "enverror"):
         return None
     return ("violation", "unexpected harness status %s %s" % (status, detail[:200]))
 
@@ -377,7 +377,28 @@ def run(ctx):
                           {"kind": "gen", "prog": pi, "workers": w, "quantum": q, "sched": sched, "trace": False,
                            "persistent": pers, "repl": repl}))
 
+    # ---------------- REPL sessions on the REAL Environment + Workers + Repl (oracle only)
+    env_cases = []
+    for pi in range(0, len(programs), max(1, len(programs) // ctx.n(45, 600))):
+        stmts = programs[pi][2]
+        lines, curl = [], []
+        for st in stmts:
+            curl.append(st)
+            if rng.random() < 0.55:
+                lines.append(", ".join(curl))
+                curl = []
+        if curl:
+            lines.append(", ".join(curl))
+        w = rng.choice([1, 2, 3])
+        q = rng.choice([1, 2, 3, 7, 1000])
+        sched = [rng.randint(0, 5) for _ in range(rng.randint(2, 12))]
+        env_cases.append(("(case %s (workers %d) (quantum %d) (sched %s) (maxops 60000))" % (
+            " ".join("(src %s)" % sexpr.quote(l) for l in lines), w, q, " ".join(map(str, sched))),
+            {"kind": "repl", "prog": pi, "workers": w, "quantum": q, "sched": sched, "trace": False, "lines": lines}))
     rc, out = ctx.run_sharded(qh, [c for c, _ in cases], shards=16, timeout=1500)
+    rce, oute = ctx.run_sharded(qh, [c for c, _ in env_cases], args=["--env"], shards=16, timeout=1500)
+    cases = cases + env_cases
+    out = out + oute
     # ---------------- model replay of the traced cases
     traced = [i for i, (_, m) in enumerate(cases) if m.get("trace")]
     parsed = [parse_res(o) for o in out]
@@ -445,7 +466,7 @@ def run(ctx):
         if cl is not None:
             kind, what = cl
             obj = {"kind": "impl-violation", "what": what, "case": line, "detail": detail, "stats": stats}
-            if meta.get("kind") == "gen":
+            if meta.get("kind") in ("gen", "repl"):
                 obj["source"] = programs[meta["prog"]][0]
             if kind == "F9":
                 f9_cases += 1
@@ -455,6 +476,8 @@ def run(ctx):
                 ctx.violation(obj, finding_key="F45h")
             else:
                 bad += 1
+                if meta.get("kind") == "repl":
+                    obj["mode"] = "real Environment + Workers + Repl (qv_heap --env)"
                 if meta.get("kind") == "gen":
                     obj = shrink(ctx, qh, obj, programs[meta["prog"]][2], meta)
                 ctx.violation(obj)
@@ -485,6 +508,8 @@ def run(ctx):
         "samples": samples,
         "programs": len(programs) + len(corpus_sources),
         "programs_generated": len(programs),
+        "repl_sessions_on_real_environment": len(env_cases),
+        "repl_lines_evaluated": sum(int(parse_res(o)[2].get("lines", "0")) for o in oute),
         "programs_not_compiling": n_compile,
         "runs_ok": n_ok, "runs_hit_step_limit": n_limit,
         "operations_oracle_checked": tot["ops"], "executor_steps": tot["steps"], "instructions_executed": tot["instructions"],
